@@ -10,7 +10,33 @@ pub const F_MARK: u32 = 0;
 pub const F_PROBE: u32 = 1;
 pub const F_CHOOSE: u32 = 2;
 pub const F_SINK: u32 = 3;
-pub const N_HOST: u32 = 4;
+/// `env.helper(a, b) = 3a + b`: a host function the program calls inside expressions and that a history
+/// may replace by a built body computing the same thing (`helper_body`)
+pub const F_HELPER: u32 = 4;
+pub const N_HOST: u32 = 5;
+/// fingerprint shared by the host implementation of `helper` (its Enter/Leave events) and the built body
+pub const HELPER_MAGIC: i64 = FUNC_MAGIC_BASE + 0x4e1;
+
+/// The body (without the final `end`) a history builds to replace `env.helper`: a typed block with a
+/// value-carrying conditional branch, so that every special mode has a site in it.
+pub fn helper_body() -> Vec<Ins> {
+    vec![
+        Ins::I64Const(HELPER_MAGIC),
+        Ins::Drop,
+        Ins::Block(BT::Val(VT::I32)),
+        Ins::LocalGet(0),
+        Ins::I32Const(3),
+        Ins::S(Simple::I32Mul),
+        Ins::LocalGet(1),
+        Ins::BrIf(0),
+        Ins::End,
+        // both parameters are read again after the branch (a clobbered parameter changes the result)
+        Ins::LocalGet(1),
+        Ins::S(Simple::I32Add),
+        Ins::LocalGet(0),
+        Ins::Drop,
+    ]
+}
 
 #[derive(Clone, Copy, Debug, PartialEq, Eq, Serialize, Deserialize)]
 pub enum CK {
@@ -159,6 +185,11 @@ impl Em<'_> {
                 self.out.push(Ins::LocalGet(l));
             }
             2 => self.out.push(Ins::Call(F_CHOOSE)),
+            3 if self.rich && depth < 2 && self.rng.chance(1, 3) => {
+                self.expr32(depth + 1);
+                self.expr32(depth + 1);
+                self.out.push(Ins::Call(F_HELPER));
+            }
             3 => self.out.push(Ins::GlobalGet(0)),
             4 => self.out.push(Ins::I32Const(self.rng.below(100) as i32)),
             5 | 6 => {
@@ -831,7 +862,8 @@ pub fn gen_program(rng: &mut Rng, rich: bool) -> (ModuleSpec, ProgInfo) {
     let t_choose = types.intern(&[], &[VT::I32]);
     let t_sink = types.intern(&[VT::I64], &[]);
     let mut m = ModuleSpec::default();
-    for (n, t) in [("mark", t_mark), ("probe", t_mark), ("choose", t_choose), ("sink", t_sink)] {
+    let t_helper = types.intern(&[VT::I32, VT::I32], &[VT::I32]);
+    for (n, t) in [("mark", t_mark), ("probe", t_mark), ("choose", t_choose), ("sink", t_sink), ("helper", t_helper)] {
         m.imports.push(ImportSpec {
             module: "env".into(),
             name: n.into(),
